@@ -15,7 +15,7 @@ func init() {
 		Title:       "Ending a tunnel releases the backend connection and all per-tunnel resources",
 		DesignRef:   "DESIGN.md §3 C11",
 		Technique:   "acquire/release pairing on all exits over go/ssa (deferred releases count from the defer statement on; marker reachability from the acquire to every return), with resources stored in Tunnel fields followed to the owner scope (the handler that runs the packet loop)",
-		LevelText:   "Static: the backend connection stored in Tunnel.rwc by the dial is closed by a deferred function of the packet loop that is registered before the dial and closes whenever the field is non-nil; the websocket connection and transport, the legacy IN connection and — when the IN leg's packet loop ends — the legacy OUT transport are closed on every exit after they were obtained; every RegisterTunnel is followed on all exits by RemoveTunnel of the same tunnel; every gauge increment is matched by a decrement of the same gauge on all exits; the relay goroutine reads exactly the connection that the deferred close closes and ends on its read error; the framer gives up (error, which ends the packet loop) when a joined fragment still does not frame, or keeps collecting only below a constant bound on the client-declared size. Decides that each release is on every path; 'within a bounded time' and that Close interrupts a blocked read are library/timing facts.",
+		LevelText:   "Static: the backend connection stored in Tunnel.rwc by the dial is closed by a deferred function of the packet loop that is registered before the dial and closes whenever the field is non-nil; the websocket connection and transport, the legacy IN connection and — when the IN leg's packet loop ends — the legacy OUT transport are closed on every exit after they were obtained; every RegisterTunnel is followed on all exits by RemoveTunnel of the same tunnel; every gauge increment is matched by a decrement of the same gauge on all exits; the relay goroutine reads exactly the connection that the deferred close closes and ends on its read error; the framer gives up (error, which ends the packet loop) when a joined fragment still does not frame, or keeps collecting only below a constant bound on the client-declared size. Decides that each release is on every path; 'within a bounded time' and that Close interrupts a blocked read are library/timing facts. On the legacy transport every exit after the IN request claimed the cached tunnel closes the OUT leg, and the registry key Tunnel.Id is assigned only under the claim test, so RemoveTunnel finds the entry it registered.",
 		LevelNote:   "Trusted: net.Conn.Close unblocks a pending Read; defers run on every exit including panics. Not decided: timing, go-cache expiry of legacy tunnel entries.",
 		Explanation: "Each rule names an acquire site and a release predicate; a return reachable from the acquire without executing the release call or a defer of it is a violation. C11/backend additionally analyses the deferred closure of Process (close whenever rwc != nil) and ties the relay goroutine's connection to Tunnel.rwc. C11/framer-bounded cuts the edges that test a constant size bound and asks whether ReadPacket is reachable again from the failure edge of the continuation readHeader.",
 		Assumptions: []string{"a panic in the handler still runs the deferred releases (Go semantics)"},
